@@ -74,11 +74,40 @@ def cross_edit(draw, spec):
 @st.composite
 def cases(draw, max_steps):
     spec = draw(G.specs(max_len=6, long_prob=0.0))
+    plain = [s_ for s_ in F.spec_components(spec)["servers"] if spec["objs"][s_]["cls"] != "GPUServer"]
+    if plain and draw(st.booleans()):
+        # a spare job deleting far more than is stored: linking it into the system fails during recomputation,
+        # i.e. after the links were changed, and must be rolled back
+        spec["objs"]["job_purge"] = {"cls": "Job", "server": plain[0], "data_stored": [-1e6, "TB"],
+                                     "request_duration": [1.0, "s"]}
     hist = []
     cur = spec
     for _ in range(draw(st.integers(1, max_steps))):
-        k = draw(st.sampled_from(["link", "link", "list", "listop", "listop", "listop", "up", "bad", "delete", "cross"]))
-        if k == "link":
+        k = draw(st.sampled_from(["link", "link", "list", "listop", "listop", "listop", "up", "bad", "delete", "cross",
+                                  "purge"]))
+        steps_ = sorted(n for n in S.spec_reachable(cur) if cur["objs"][n]["cls"] == "UsageJourneyStep")
+        last = hist[-1] if hist else None
+        if last is not None and last.get("purge") and draw(st.floats(0, 1)) < 0.6:
+            # right after the failed in-place operation: a valid in-place operation on the very same list
+            pool = [j for j in sorted(S.names_of(cur, S.JOB_CLS)) if j != "job_purge"]
+            m = draw(st.sampled_from(["append", "iadd", "extend", "insert", "pop"]))
+            j = draw(st.sampled_from(pool))
+            args = {"append": [j], "iadd": [[j]], "extend": [[j]], "insert": [0, j], "pop": []}[m]
+            e = dict(op="listop", obj=last["obj"], attr="jobs", method=m, args=args)
+            if m == "pop" and not cur["objs"][last["obj"]]["jobs"]:
+                e = dict(e, method="append", args=[j])
+        elif k == "purge":
+            if "job_purge" not in cur["objs"] or not steps_ or "job_purge" in S.spec_reachable(cur):
+                e = draw(G.list_edit(cur, mutators=True, noops=True))
+            else:
+                m = draw(st.sampled_from(["append", "iadd", "extend", "insert", "setitem"]))
+                stp = draw(st.sampled_from(steps_))
+                args = {"append": ["job_purge"], "iadd": [["job_purge"]], "extend": [["job_purge"]],
+                        "insert": [0, "job_purge"], "setitem": [0, "job_purge"]}[m]
+                if m == "setitem" and not cur["objs"][stp]["jobs"]:
+                    m, args = "append", ["job_purge"]
+                e = dict(op="listop", obj=stp, attr="jobs", method=m, args=args, purge=True)
+        elif k == "link":
             e = draw(G.link_edit(cur))
         elif k == "list":
             e = draw(G.list_edit(cur, mutators=False))
@@ -93,7 +122,9 @@ def cases(draw, max_steps):
         else:
             e = draw(cross_edit(cur))
         hist.append(e)
-        if e["op"] not in ("bad_listop", "self_delete", "cross_system"):
+        if e.get("purge"):
+            pass                           # refused (negative cumulative storage): the model is unchanged
+        elif e["op"] not in ("bad_listop", "self_delete", "cross_system"):
             cur = E.apply_spec(cur, e)
         elif e["op"] == "self_delete" and not S.referrers(cur, e["obj"]):
             cur = copy.deepcopy(cur)      # an unreferenced object really disappears
